@@ -20,7 +20,7 @@ from common import Model, hx, exc_name
 
 logging.disable(logging.CRITICAL)
 
-LEAN_TARGETS = ["NfcVerif.Props.C12", "drv_c12"]
+LEAN_TARGETS = ["NfcVerif.Props.C12", "drv_c12", "NfcVerif.Props.TablesIso", "NfcVerif.Props.TablesTag"]
 
 THEOREMS = [
     "NfcVerif.C12.isodep_at_most_once",
@@ -139,6 +139,7 @@ def scripts_exhaustive(legs, k, kinds):
 
 
 def run(ck):
+    ck.tables("TablesIso", "TablesTag")   # T-tie for constants: source tables re-extracted, bridge theorems re-proved
     import nfc.clf
     import nfc.tag
     import nfc.tag.tt4 as tt4
